@@ -55,7 +55,12 @@ struct Tally {
     first_panic: Vec<u8>,
 }
 
+/// progress marker for the watchdog (index of the input being processed, bumped per input)
+pub static PROGRESS: std::sync::atomic::AtomicU64 = std::sync::atomic::AtomicU64::new(0);
+pub static CURRENT: std::sync::atomic::AtomicU64 = std::sync::atomic::AtomicU64::new(0);
+
 fn one(input: &[u8], t: &mut Tally) {
+    PROGRESS.fetch_add(1, Ordering::Relaxed);
     MAX_ONE.store(0, Ordering::Relaxed);
     TOTAL.store(0, Ordering::Relaxed);
     let r = std::panic::catch_unwind(|| btdht::message::Message::decode(input).is_ok());
@@ -86,6 +91,7 @@ fn hexs(b: &[u8]) -> String {
 }
 
 fn mark(careful: bool, idx: u64) {
+    CURRENT.store(idx, Ordering::Relaxed);
     if careful {
         let mut o = std::io::stdout().lock();
         let _ = writeln!(o, "I {idx}");
@@ -186,6 +192,30 @@ fn main() {
         libc::setrlimit(libc::RLIMIT_AS, &lim);
     }
     std::panic::set_hook(Box::new(|_| {}));
+    // watchdog: an input that makes no progress for 25 s of wall-clock time is a hang
+    std::thread::spawn(|| {
+        let mut last = (u64::MAX, 0u32);
+        loop {
+            std::thread::sleep(std::time::Duration::from_secs(1));
+            let p = PROGRESS.load(Ordering::Relaxed) + vharness::props::c14::NODE_PROGRESS.load(Ordering::Relaxed);
+            if BUSY.load(Ordering::Relaxed) == 0 {
+                last = (p, 0);
+                continue;
+            }
+            if p == last.0 {
+                last.1 += 1;
+                if last.1 >= 25 {
+                    let k = CURRENT.load(Ordering::Relaxed).max(vharness::props::c14::NODE_CURRENT.load(Ordering::Relaxed));
+                    let mut o = std::io::stdout().lock();
+                    let _ = writeln!(o, "H {k}");
+                    let _ = o.flush();
+                    std::process::exit(3);
+                }
+            } else {
+                last = (p, 0);
+            }
+        }
+    });
     let stdin = std::io::stdin();
     for line in stdin.lock().lines() {
         let line = match line {
@@ -196,6 +226,7 @@ fn main() {
             continue;
         }
         let l2 = line.clone();
+        BUSY.store(1, Ordering::Relaxed);
         let h = std::thread::Builder::new()
             .stack_size(2 << 20)
             .spawn(move || job(&l2))
@@ -204,8 +235,11 @@ fn main() {
             Ok(r) => r,
             Err(_) => "E job thread panicked".to_string(),
         };
+        BUSY.store(0, Ordering::Relaxed);
         let mut o = std::io::stdout().lock();
         let _ = writeln!(o, "{reply}");
         let _ = o.flush();
     }
 }
+
+static BUSY: std::sync::atomic::AtomicU64 = std::sync::atomic::AtomicU64::new(0);
